@@ -228,6 +228,28 @@ def run(ctx):
             shifts = _shift_table(ic)
             ok = bool(ps) and shifts is not None and max(abs(x) for x in shifts) <= 1e-6 / 8 * (1 + 1e-9)
             detail = 'shifts %s' % (sorted(set(shifts)) if shifts else None)
+            # component by component: (x + d[0], y + d[1], z + d[2]) of the requested translation, with the requested rotation
+            comp_ok = None
+            if isinstance(pose, tuple) and pose[0] == 'call' and cname(pose[1]).endswith('::from_parts') and len(pose) == 4:
+                tr, rot = strip(pose[2]), strip(pose[3])
+                comp_ok = isinstance(rot, tuple) and rot[0] == 'fld' and rot[2] == 'rotation' and util.is_param(rot[1], 2)
+                if isinstance(tr, tuple) and tr[0] == 'call' and cname(tr[1]).endswith('Translation::new') and len(tr) == 5:
+                    for k, (cmp_, want) in enumerate(zip(tr[2:], 'xyz')):
+                        cmp_ = strip(cmp_)
+                        good = isinstance(cmp_, tuple) and cmp_[0] == 'bin' and cmp_[1] == 'Add'
+                        if good:
+                            a, d_ = strip(cmp_[2]), strip(cmp_[3])
+                            if not (isinstance(a, tuple) and a[0] == 'fld'):
+                                a, d_ = d_, a
+                            good = isinstance(a, tuple) and a[0] == 'fld' and a[2] == want and \
+                                mir.contains(a[1], lambda y: y[0] == 'fld' and y[2] == 'translation' and util.is_param(strip(y[1]), 2)) and \
+                                isinstance(d_, tuple) and d_[0] == 'idx' and util.const_val(d_[2]) == k
+                        comp_ok = comp_ok and good
+                else:
+                    comp_ok = None
+            if comp_ok is not None:
+                ok = ok and comp_ok
+                detail += '; components (x+d0, y+d1, z+d2), same rotation: %s' % comp_ok
         ctx.check(ok, 'R01.1', 'inverse_continuing/extend', ic.where(bi), ic.path,
                   'solutions may be taken over wholesale only from the gated 6-DOF solver on the requested pose shifted by at most DISTANCE_TOLERANCE/8', found=show(src, maxdepth=3), detail=detail)
 
